@@ -131,6 +131,9 @@ type World struct {
 		awaitFake    time.Duration
 		handlersAtStop []string
 	}
+	// WaitBound: clients dial only once their address is bound (a client that waits for the
+	// service to come up); without it a dial may be refused, which the C14 oracle treats as legal.
+	WaitBound    bool
 	IdleRounds   int
 	Stuck        bool
 	StuckWhy     string
@@ -324,7 +327,7 @@ func (w *World) clientActions() []Action {
 		switch {
 		case c.refused || c.vanished || c.closed:
 		case !c.dialed:
-			if (w.Sim.Step >= c.StartStep || w.IdleRounds > 0) && (!c.AfterOthers || w.othersSettled()) {
+			if (w.Sim.Step >= c.StartStep || w.IdleRounds > 0) && (!c.AfterOthers || w.othersSettled()) && (!w.WaitBound || w.Sim.Net.Bound(c.Addr)) {
 				acts = append(acts, Action{Key: key, Desc: "dial " + c.Addr, Do: func() { w.dial(c) }})
 			}
 		default:
